@@ -69,7 +69,15 @@ def sig_key(m):
 def S_canon(s):
     import json
 
-    return json.dumps(s, sort_keys=True)
+    def norm(x):
+        # ["cls", "object"] and ["obj"] are the same annotation
+        if isinstance(x, list):
+            if x == ["cls", "object"]:
+                return ["obj"]
+            return [norm(y) for y in x]
+        return x
+
+    return json.dumps(norm(s), sort_keys=True)
 
 
 def beats(a, b, n, kwnames, env, seq):
